@@ -37,11 +37,11 @@ def run(ctx):
     sched = ctx.path("schedule.json")
     json.dump([json.loads(r) for r in uniq], open(sched, "w"))
     ctx.log("design: %d states; %d distinct path rows" % (res.distinct, len(uniq)))
-    seeds = [ctx.seed * 1000 + i for i in range(6 if q else 48)]
+    seeds = [ctx.seed * 1000 + i for i in range(6 if q else 160)]
     lines, sums = cc.run_scenarios(ctx, seeds, 120 if q else 330, extra=["-schedule", sched])
     # elections whose outcome hangs on tie-breaking: more equally staked validator entities than validator slots (the choice must
     # come from the shared entropy, not from anything replica-local such as map iteration order), several nodes per entity
-    seeds2 = [ctx.seed * 1000 + 500 + i for i in range(3 if q else 16)]
+    seeds2 = [ctx.seed * 1000 + 500 + i for i in range(3 if q else 48)]
     l2, s2 = cc.run_scenarios(ctx, seeds2, 60 if q else 200,
                               extra=["-schedule", sched, "-validators", "5", "-maxvals", "2", "-tiedstake", "-epoch", "4"])
     l3, s3 = cc.run_scenarios(ctx, [x + 100 for x in seeds2], 60 if q else 200,
